@@ -100,12 +100,19 @@ func gen(t *rapid.T) Case {
 			}
 			if np > 0 && rapid.IntRange(0, 3).Draw(t, "variadic") == 0 {
 				s.Variadic = true
+				if rapid.IntRange(0, 1).Draw(t, "variadic-any") == 0 {
+					s.Params[np-1].T = progen.B("any") // ...any: the shape logging-style methods have
+				}
 			}
 			nr := rapid.IntRange(0, 2).Draw(t, "nresults")
 			for k := 0; k < nr; k++ {
 				s.Results = append(s.Results, progen.Var{T: idType(t, "rt", 1)})
 			}
 			it.Methods = append(it.Methods, progen.Meth{Name: names[j], Sig: s})
+		}
+		if i == 0 && rapid.IntRange(0, 4).Draw(t, "logging-shape") == 0 {
+			// the shape logging-style methods have: the variadic is the only parameter
+			it.Methods[0].Sig = progen.Sig{Params: []progen.Var{{Name: "args", T: progen.B("any")}}, Variadic: true}
 		}
 		mod.Pkgs[0].Ifaces = append(mod.Pkgs[0].Ifaces, it)
 	}
@@ -170,7 +177,20 @@ func run(c Case) *vh.Violation {
 	if blk := raceBlock.FindString(rr.Output); blk != "" {
 		inGenerated := strings.Contains(blk, "/mocks/svc/mocks.go")
 		onlyDriver := !inGenerated && !strings.Contains(blk, "testify")
+		// the two conflicting accesses: one made by the caller on memory it owns (only driver
+		// frames), the other by testify => the generated code handed the caller's memory to testify
+		callerVsTestify := false
+		if parts := strings.SplitN(blk, "Previous ", 2); len(parts) == 2 {
+			second := parts[1]
+			if i := strings.Index(second, "Goroutine "); i >= 0 {
+				second = second[:i]
+			}
+			pure := func(s string) bool { return !strings.Contains(s, "testify") && !strings.Contains(s, "/mocks/svc/") }
+			callerVsTestify = (pure(parts[0]) && strings.Contains(second, "testify")) || (pure(second) && strings.Contains(parts[0], "testify"))
+		}
 		switch {
+		case callerVsTestify && c.R.Template == "testify":
+			return fail("data-race/caller-memory-retained", "a write of the caller to its own (reused) variadic slice races with testify reading a recorded call: the mock kept the caller's backing array")
 		case inGenerated:
 			return fail("data-race/generated-code", "the race detector reports a data race with a frame in the generated mock")
 		case c.R.Template == "matryer" && !onlyDriver:
